@@ -625,6 +625,74 @@ func C13(tier string) int {
 		}
 	}
 
+	// ---- mapped field checkers (PersistContext.WithFieldOverrides): a stored field that is mapped to an API name is
+	// selected exactly when that API name is; unmapped fields are selected under their own name; all 32 selections
+	mapping := map[string]string{"a": "apiA", "b": "apiB"}
+	names := []string{"a", "b", "c", "apiA", "apiB"}
+	for mask := 0; mask < 1<<len(names); mask++ {
+		base := boltz.MapFieldChecker{}
+		var sel []string
+		for i, n := range names {
+			if mask&(1<<i) != 0 {
+				base[n] = struct{}{}
+				sel = append(sel, n)
+			}
+		}
+		mapped := boltz.NewMappedFieldChecker(base, mapping)
+		what := fmt.Sprintf("selected=%v", sel)
+		rep.Count("evaluations", 1)
+		rep.Outcome("mapped-field-checker")
+		var problem string
+		for _, f := range []string{"a", "b", "c", "apiA", "apiB", "zz"} {
+			_, isSel := base[f]
+			if o, ok := mapping[f]; ok {
+				_, isSel = base[o]
+			}
+			if got := mapped.IsUpdated(f); got != isSel {
+				problem = fmt.Sprintf("IsUpdated(%q) = %v, expected %v (mapping %v)", f, got, isSel, mapping)
+			}
+		}
+		// and through real writes: old values first, then new values under the mapped checker
+		err := d.roundTrip(func(b *boltz.TypedBucket) {
+			for _, f := range []string{"a", "b", "c"} {
+				b.SetString(f, "old", nil)
+			}
+		}, func(*boltz.TypedBucket) {})
+		if err == nil {
+			err = d.db.Update(nil, func(ctx boltz.MutateContext) error {
+				b := boltz.Path(ctx.Tx(), "root", "c13")
+				for _, f := range []string{"a", "b", "c"} {
+					b.SetString(f, "new", mapped)
+				}
+				return b.GetError()
+			})
+		}
+		if err == nil {
+			err = d.db.View(func(tx *bbolt.Tx) error {
+				b := boltz.Path(tx, "root", "c13")
+				for _, f := range []string{"a", "b", "c"} {
+					want := "old"
+					key := f
+					if o, ok := mapping[f]; ok {
+						key = o
+					}
+					if _, ok := base[key]; ok {
+						want = "new"
+					}
+					if g := b.GetString(f); g == nil || *g != want {
+						problem = fmt.Sprintf("field %q reads %q after the restricted write, expected %q", f, derefS(g), want)
+					}
+				}
+				return nil
+			})
+		}
+		if err != nil {
+			fail("mapped-field-checker", what, "failed: "+err.Error())
+		} else if problem != "" {
+			fail("mapped-field-checker", what, what+": "+problem)
+		}
+	}
+
 	// ---- field checkers: a restricted write touches only the selected fields
 	fields := []string{"s", "i", "t", "l"}
 	for mask := 0; mask < 16; mask++ {
